@@ -165,6 +165,14 @@ def user_table(E, cfg):
     C.expect_raises(E, lambda: qa.convert(uc), UnitConversionError, 'missing-pair-raises')
     C.expect_raises(E, lambda: qc.convert(ua), UnitConversionError, 'missing-pair-reverse-raises')
     C.expect_raises(E, lambda: qa < qc, UnitConversionError, 'missing-pair-order-raises')
+    # the same through the constructors that take a text and a target unit
+    for label, fn in (('generic', lambda: Quantity('7 ta', uc)), ('own-type', lambda: T('7 tc', ua)),
+                      ('fraction-text', lambda: Quantity('7/3 ta', uc))):
+        C.expect_raises(E, fn, UnitConversionError, 'missing-pair-text-constructor-raises-' + label)
+    tq = Quantity('7 ta', ub)
+    E.check(tq.unit is ub and tq.amount == 7 * f + o, 'text-constructor-with-target-unit-converts', key='text-ctor:forward')
+    tq = T('7 tb', ua)
+    E.check(tq.unit is ua and tq.amount == (7 - o) / f, 'text-constructor-with-target-unit-converts-reverse', key='text-ctor:reverse')
     E.check(E.Not(qa == qc), 'missing-pair-eq-false')
     E.check(qa.convert(ua).amount == x, 'same-unit-identity')
     y = E.rational('y', 'dec')
